@@ -15,11 +15,14 @@ import (
 type lifecycleOpts struct {
 	kinds      []lcKind
 	maxActors  int
+	minActors  int
 	zones      []string
 	faults     bool
 	observer   func(w *world) // called at every quiescent point after the commit oracle
 	maxVirtual time.Duration
 	noOperator bool
+	ghostBudget int // number of ghost operations per run (default 10)
+	ghostIDs    int // number of distinct ghost instances (default 4)
 	ghosts     bool // the operator also writes entries of instances that are not simulated (any state, incl. LEFT with tokens; chosen heartbeat ages)
 }
 
@@ -37,7 +40,11 @@ func runLifecycle(s *sim.Sim, o lifecycleOpts) *world {
 	for _, z := range o.zones {
 		w.ghostZones = append(w.ghostZones, z)
 	}
-	n := s.Range(1, o.maxActors, "actors")
+	lo := 1
+	if o.minActors > 0 {
+		lo = o.minActors
+	}
+	n := s.Range(lo, o.maxActors, "actors")
 	for i := 0; i < n; i++ {
 		a := w.addActor(i, o.kinds, o.zones)
 		if a.tokensPath != "" && s.Chance(0.4, "preexisting-tokens-file") {
@@ -58,6 +65,13 @@ func runLifecycle(s *sim.Sim, o lifecycleOpts) *world {
 	faultsOn := o.faults && s.Chance(0.6, "faults-enabled")
 	w.faultsOn = faultsOn
 	budget := map[string]int{"wipe": 2, "forget": 2, "kv-errors": 4, "restart": 5, "stop": 8, "ghost": 10}
+	if o.ghostBudget > 0 {
+		budget["ghost"] = o.ghostBudget
+	}
+	w.ghostIDs = 4
+	if o.ghostIDs > 0 {
+		w.ghostIDs = o.ghostIDs
+	}
 	spend := func(k string) bool {
 		if budget[k] <= 0 {
 			return false
@@ -216,7 +230,11 @@ func runLifecycle(s *sim.Sim, o lifecycleOpts) *world {
 			}})
 		}
 		if o.ghosts && budget["ghost"] > 0 {
-			alts = append(alts, alt{"ghost", 2, func() {
+			gw := 2
+			if o.ghostBudget > 10 {
+				gw = 8
+			}
+			alts = append(alts, alt{"ghost", gw, func() {
 				spend("ghost")
 				w.ghostOperation()
 			}})
@@ -517,7 +535,7 @@ func (w *world) checkHeartbeats() {
 func (w *world) ghostOperation() {
 	s := w.s
 	d := w.desc()
-	id := "g" + itoa(uint64(s.Choose(4, "ghost-id")))
+	id := "g" + itoa(uint64(s.Choose(w.ghostIDs, "ghost-id")))
 	zones := w.ghostZones
 	if len(zones) == 0 {
 		zones = []string{""}
@@ -525,9 +543,9 @@ func (w *world) ghostOperation() {
 	zone := zones[s.Choose(len(zones), "ghost-zone")]
 	kind := s.Choose(4, "ghost-op") // 0,1 add/replace, 2 refresh state/heartbeat, 3 remove
 	now := time.Now()
-	ages := []time.Duration{0, 59 * time.Second, 60 * time.Second, 61 * time.Second, 10 * time.Minute, 30 * time.Second}
+	ages := []time.Duration{0, 59 * time.Second, 60 * time.Second, 61 * time.Second, 10 * time.Minute, 30 * time.Second, 0, time.Second, 2 * time.Second}
 	age := ages[s.Choose(len(ages), "ghost-age")]
-	state := []ring.InstanceState{ring.ACTIVE, ring.LEFT, ring.LEAVING, ring.JOINING, ring.PENDING}[s.Choose(5, "ghost-state")]
+	state := []ring.InstanceState{ring.ACTIVE, ring.LEFT, ring.LEAVING, ring.JOINING, ring.PENDING, ring.ACTIVE, ring.ACTIVE, ring.ACTIVE}[s.Choose(8, "ghost-state")]
 	taken := map[uint32]bool{}
 	for gid, e := range d.Ingesters {
 		if gid == id {
@@ -538,7 +556,7 @@ func (w *world) ghostOperation() {
 		}
 	}
 	var tokens []uint32
-	nTok := s.Choose(4, "ghost-tokens")
+	nTok := []int{1, 0, 2, 3, 1}[s.Choose(5, "ghost-tokens")]
 	for _, i := range s.Perm(len(tinyAlphabet), "ghost-token-order") {
 		if len(tokens) == nTok {
 			break
